@@ -449,7 +449,7 @@ def check_spread(rep, wf, cls):
         by_role.setdefault(dests(t), []).append((p_, t))
     # declared types of the totals (argparse) and their defaults (set_defaults)
     from ..optparse_facts import argparse_table
-    tab = {a.dest: a for a in argparse_table(wf.repo.method('Instance_options_parser', 'parse').node)}
+    tab = {a.dest: a for a in argparse_table(wf.repo.method('Instance_options_parser', 'parse').node, wf.repo)}
     float_defaults = set()
     sd = wf.repo.method('Instance_options_parser', 'set_defaults')
     for n in ast.walk(sd.node):
